@@ -11,7 +11,7 @@ import (
 
 func init() {
 	register("C16", propMeta{
-		Explanation: "E-PAIR + E-OWN + E-CONST on proxy/lib. O-1 slot pairing: tokens.get() is called only from Start and every path from it reaches runSession; over runSession's CFG every path from entry to a return carries exactly one release event, where a release event is a call of tokens.ret() or the hand-off edge 'case <-dataChan' of the final select (path enumeration with event counts, sensitive to repeated tests of one condition). The hand-off is verified separately: dataChan is closed only inside the OnDataChannel callback of makePeerConnectionFromOffer, which starts the handler goroutine on every path that closes it; the handler passed by runSession resolves to SnowflakeProxy.datachannelHandler, which releases exactly once (one deferred tokens.ret() in its entry block, no other). O-2 counter and semaphore move together: get adds +1 and sends, ret adds -1 and receives, both channel operations behind capacity != 0, ch = make(chan struct{}, capacity), no other access to ch or clients except the atomic load in count. O-3 reported load: the clients argument of the poll request is int((tokens.count()/8)*8) and is recomputed in the same loop iteration as the poll. O-4: on the exits after the peer connection was created the connection is closed before the slot is released. A missing or doubled release is a path in the source on which capacity is lost or exceeded. Added after the third seeding round: O-5 the relay dial uses a dialer with a non-zero HandshakeTimeout (websocket.DefaultDialer or a literal that sets it), so a silent relay cannot hold the slot forever. Added after the fourth seeding round: O-6 each copying goroutine of copyLoop signals the done channel (close or send, directly or through Once.Do) on every return, so that datachannelHandler's deferred release runs whatever io.Copy returned.",
+		Explanation: "E-PAIR + E-OWN + E-CONST on proxy/lib. O-1 slot pairing: tokens.get() is called only from Start and every path from it reaches runSession; over runSession's CFG every path from entry to a return carries exactly one release event, where a release event is a call of tokens.ret() or the hand-off edge 'case <-dataChan' of the final select (path enumeration with event counts, sensitive to repeated tests of one condition). The hand-off is verified separately: dataChan is closed only inside the OnDataChannel callback of makePeerConnectionFromOffer, which starts the handler goroutine on every path that closes it; the handler passed by runSession resolves to SnowflakeProxy.datachannelHandler, which releases exactly once (one deferred tokens.ret() in its entry block, no other). O-2 counter and semaphore move together: get adds +1 and sends, ret adds -1 and receives, both channel operations behind capacity != 0, ch = make(chan struct{}, capacity), no other access to ch or clients except the atomic load in count. O-3 reported load: the clients argument of the poll request is int((tokens.count()/8)*8) and is recomputed in the same loop iteration as the poll. O-4: on the exits after the peer connection was created the connection is closed before the slot is released. A missing or doubled release is a path in the source on which capacity is lost or exceeded. Added after the third seeding round: O-5 the relay dial uses a dialer with a non-zero HandshakeTimeout (websocket.DefaultDialer or a literal that sets it), so a silent relay cannot hold the slot forever. Added after the fourth seeding round: O-6 each copying goroutine of copyLoop signals the done channel (close or send, directly or through Once.Do) on every return, so that datachannelHandler's deferred release runs whatever io.Copy returned. Added after the fifth seeding round: O-6 the data channel's OnClose callback closes the pipe writer on every path; Start re-creates the token pool from its Capacity before any slot is taken; websocketconn.Close writes its Close frame under a deadline read from the clock; the hand-off channel is identified by resolving what runSession awaits to its make (in runSession or returned by makePeerConnectionFromOffer).",
 		NotDecided:  "the race 'timeout fires while the data channel opens' (needs a happens-before argument about pion callbacks), a client opening a second data channel, sessions run concurrently by embedding applications.",
 		Assumptions: []string{"pion invokes OnDataChannel at most once per peer connection in the analysed scenarios", "log.Fatalf paths are process exit and carry no obligation"},
 	}, runC16)
@@ -215,17 +215,69 @@ func runC16(c *Ctx) {
 		}
 	}
 	// --- runSession: exactly one release event per path ---
-	var dataChan *ssa.MakeChan
-	var handEdges []Edge
-	for _, op := range chanOpsIn(p, run) {
-		if op.Dir == chMake {
-			dataChan, _ = op.Instr.(*ssa.MakeChan)
+	// the hand-off channel: the channel runSession waits on next to its timeout. It is made in runSession and
+	// handed to makePeerConnectionFromOffer, or made there and returned.
+	var mkCall *ssa.Call
+	for _, f := range helperFns(run, 2) {
+		for _, ci := range callsIn(f) {
+			if cc, ok := ci.(*ssa.Call); ok && staticCallee(ci) == mk {
+				mkCall = cc
+			}
 		}
 	}
+	resolveChan := func(v ssa.Value) *ssa.MakeChan {
+		var out *ssa.MakeChan
+		xforms(v, func(x ssa.Value) bool {
+			if m, ok := x.(*ssa.MakeChan); ok {
+				out = m
+				return true
+			}
+			return false
+		})
+		if out != nil {
+			return out
+		}
+		// a result of makePeerConnectionFromOffer: the channel its returns carry
+		if ex, ok := strip(v).(*ssa.Extract); ok && mkCall != nil && ex.Tuple == ssa.Value(mkCall) {
+			var m *ssa.MakeChan
+			for _, r := range returnsOf(mk) {
+				rv := retVal(r, ex.Index)
+				if isNilConst(rv) {
+					continue
+				}
+				var m2 *ssa.MakeChan
+				xforms(rv, func(x ssa.Value) bool {
+					if mm, okm := x.(*ssa.MakeChan); okm {
+						m2 = mm
+						return true
+					}
+					return false
+				})
+				if m2 == nil || (m != nil && m != m2) {
+					return nil
+				}
+				m = m2
+			}
+			return m
+		}
+		return nil
+	}
+	var dataChan *ssa.MakeChan
+	for _, f := range helperFns(run, 2) {
+		for _, op := range chanOpsIn(p, f) {
+			if op.Dir == chRecv && op.Sel != nil && op.Class != "timer" && !isTimerChan(op.Chan) {
+				// made by runSession itself or by makePeerConnectionFromOffer (not by something the handler calls)
+				if m := resolveChan(op.Chan); m != nil && (m.Parent() == run || m.Parent() == mk || (m.Parent().Parent() == nil && uniqueSite(m.Parent()) != nil && uniqueSite(m.Parent()).Parent() == run && m.Parent() != dch)) {
+					dataChan = m
+				}
+			}
+		}
+	}
+	var handEdges []Edge
 	handIn := func(f *ssa.Function) []Edge {
 		var out []Edge
 		for _, op := range chanOpsIn(p, f) {
-			if op.Dir == chRecv && op.Sel != nil && dataChan != nil && xforms(op.Chan, func(x ssa.Value) bool { return x == ssa.Value(dataChan) }) {
+			if op.Dir == chRecv && op.Sel != nil && dataChan != nil && resolveChan(op.Chan) == dataChan {
 				if e, ok := selectCaseEdge(op.Sel, op.State); ok {
 					out = append(out, e)
 				}
@@ -238,32 +290,43 @@ func runC16(c *Ctx) {
 			handEdges = append(handEdges, handIn(f)...)
 		}
 	}
-	if dataChan == nil || len(handEdges) != 1 {
-		c.undecided(rule1, "runSession: hand-off select on the data-channel signal", p.Pos(run.Pos()), "no 'case <-dataChan' found on a channel made in runSession")
+	// the handler parameter of makePeerConnectionFromOffer, by type
+	hIdx := -1
+	for i, par := range mk.Params {
+		if sig, ok := par.Type().Underlying().(*types.Signature); ok && sig.Params().Len() == 2 && sig.Results().Len() == 0 {
+			hIdx = i
+		}
+	}
+	if dataChan == nil || len(handEdges) != 1 || mkCall == nil || hIdx < 0 {
+		c.undecided(rule1, "runSession: hand-off select on the data-channel signal", p.Pos(run.Pos()), "no 'case <-dataChan' found on a channel made in runSession or returned by makePeerConnectionFromOffer")
 	} else {
 		bad, got, n := pathEventCountsDeep(run, isRetCall, handIn, 1, 2)
 		c.count("runSession paths enumerated", n)
 		c.check(bad == nil && n >= 3, rule1, "runSession releases its slot exactly once on every path", p.Pos(run.Pos()), fmt.Sprintf("%d entry-to-return paths, each with exactly one release event (tokens.ret() or the hand-off edge)", n),
 			fmt.Sprintf("a path of runSession carries %d release events instead of 1 (paths enumerated: %d)", got, n), p.pathString(bad)...)
-		// the channel handed to makePeerConnectionFromOffer is this dataChan, and the handler is the adaptor
-		for _, ci := range callsIn(run) {
-			if staticCallee(ci) != mk {
-				continue
+		// the handler is the adaptor
+		target := resolveHandler(p, mkCall.Call.Args[hIdx])
+		c.check(target == dch, rule1, "runSession's handler resolves to SnowflakeProxy.datachannelHandler", p.instrPos(mkCall), "", "the handler started on hand-off is not the function that releases the slot")
+		// --- hand-off inside makePeerConnectionFromOffer: the channel closed by the OnDataChannel callback is the
+		// one runSession awaits ---
+		hPar := mk.Params[hIdx]
+		isHandOff := func(v ssa.Value) bool {
+			if resolveChan(v) == dataChan {
+				return true
 			}
-			args := ci.Common().Args
-			c.check(strip(args[3]) == ssa.Value(dataChan), rule1, "runSession passes its hand-off channel to makePeerConnectionFromOffer", p.instrPos(ci), "", "the channel awaited by runSession is not the one the data-channel callback closes")
-			// handler resolves to datachannelHandler
-			target := resolveHandler(p, args[4])
-			c.check(target == dch, rule1, "runSession's handler resolves to SnowflakeProxy.datachannelHandler", p.instrPos(ci), "", "the handler started on hand-off is not the function that releases the slot")
+			// the channel arrives as a parameter: the argument at the call is the awaited channel
+			ok := false
+			for i, par := range mk.Params {
+				if sameValue(v, func(w ssa.Value) bool { return w == ssa.Value(par) }) && i < len(mkCall.Call.Args) && resolveChan(mkCall.Call.Args[i]) == dataChan {
+					ok = true
+				}
+			}
+			return ok
 		}
-	}
-	// --- hand-off inside makePeerConnectionFromOffer ---
-	if len(mk.Params) >= 5 {
-		dcPar, hPar := mk.Params[3], mk.Params[4]
 		nClose := 0
 		for _, fn := range withAnon(mk) {
 			for _, op := range chanOpsIn(p, fn) {
-				if op.Dir != chClose || !sameValue(op.Chan, func(v ssa.Value) bool { return v == ssa.Value(dcPar) }) {
+				if op.Dir != chClose || !isHandOff(op.Chan) {
 					continue
 				}
 				nClose++
@@ -286,7 +349,7 @@ func runC16(c *Ctx) {
 			}
 		}
 		if nClose != 1 {
-			c.viol(rule1, "makePeerConnectionFromOffer closes the hand-off channel in one place", p.Pos(mk.Pos()), fmt.Sprintf("%d close sites of the hand-off channel", nClose))
+			c.viol(rule1, "makePeerConnectionFromOffer closes the hand-off channel in one place", p.Pos(mk.Pos()), fmt.Sprintf("%d close sites of the channel runSession awaits", nClose))
 		}
 	}
 	// --- datachannelHandler releases exactly once ---
@@ -312,6 +375,7 @@ func runC16(c *Ctx) {
 	c.checkTokens()
 	c.checkRelayDialBounded()
 	c.checkCopyLoopEnds()
+	c.checkSessionEndSignals()
 
 	// ---------- O-3 reported load ----------
 	rule3 := "O-3 reported load"
@@ -361,7 +425,7 @@ func runC16(c *Ctx) {
 		if !ok || staticCallee(cc) != mk {
 			continue
 		}
-		okE := errNilEdges(run, cc, 1)
+		okE := errNilEdges(run, cc, errResultIndex(cc.Call.Signature()))
 		n := 0
 		for _, d := range deepInstrs(run, 2, isRetCall) {
 			// only releases after the successful creation
@@ -704,5 +768,96 @@ func (c *Ctx) checkCopyLoopEnds() {
 	}
 	if n == 0 {
 		c.undecided(rule, "copyLoop's copying goroutines", p.Pos(cl.Pos()), "no go statement found although copyLoop waits on "+doneCls)
+	}
+}
+
+// checkSessionEndSignals: (a) the data channel's OnClose callback closes the pipe
+// writer on every path: the handler's copy loop reads from that pipe and ends -
+// and datachannelHandler releases the slot - only at its EOF; (b) Start creates
+// the token pool from its own Capacity on every path before the first slot is
+// taken (a pool kept from a previous Start has the old capacity); (c) Close of
+// the WebSocket adapter writes its Close frame under a deadline taken from the
+// clock (with no deadline WriteControl waits for a write loop that is stuck in a
+// blocked socket write, and teardown - with it the slot - hangs).
+func (c *Ctx) checkSessionEndSignals() {
+	p := c.P
+	rule := "O-6 a session that ended releases its slot"
+	if mk := p.Fn("proxy/lib", "(*SnowflakeProxy).makePeerConnectionFromOffer"); mk != nil {
+		n := 0
+		for _, fn := range withAnon(mk) {
+			for _, ci := range callsIn(fn) {
+				if !strings.HasSuffix(calleeName(ci), "DataChannel).OnClose") {
+					continue
+				}
+				var body *ssa.Function
+				switch v := strip(ci.Common().Args[1]).(type) {
+				case *ssa.MakeClosure:
+					body, _ = v.Fn.(*ssa.Function)
+				case *ssa.Function:
+					body = v
+				}
+				if body == nil || body.Blocks == nil {
+					continue
+				}
+				n++
+				path := escapesWithout(body.Blocks[0], func(in ssa.Instruction) bool {
+					c2, ok := in.(ssa.CallInstruction)
+					return ok && (calleeName(c2) == "(*io.PipeWriter).Close" || calleeName(c2) == "(*io.PipeWriter).CloseWithError")
+				})
+				c.check(path == nil, rule, "the data channel's OnClose callback closes the pipe the handler reads from, on every path", p.instrPos(ci), "", "the callback can return without closing the pipe writer (an early return for unused connections): the copy loop never sees EOF and the session's slot is never released", p.pathString(path)...)
+			}
+		}
+		if n == 0 {
+			c.undecided(rule, "OnClose callback of the proxy's data channel", p.Pos(mk.Pos()), "not found")
+		}
+	}
+	if start := p.Fn("proxy/lib", "(*SnowflakeProxy).Start"); start != nil {
+		var store *ssa.Store
+		allInstrs(start, func(in ssa.Instruction) {
+			if st, ok := in.(*ssa.Store); ok {
+				if g, isG := st.Addr.(*ssa.Global); isG && g.Name() == "tokens" {
+					store = st
+				}
+			}
+		})
+		var firstGet ssa.Instruction
+		for _, d := range deepCalls(start, 2, "(*proxy/lib.tokens_t).get") {
+			if firstGet == nil {
+				firstGet, _ = d.Top.(ssa.Instruction)
+			}
+		}
+		if store == nil || firstGet == nil {
+			c.undecided(rule, "Start creates the token pool", p.Pos(start.Pos()), "store to tokens or tokens.get() not found")
+		} else {
+			fromCap := flows(store.Val, func(v ssa.Value) bool {
+				cc, _, ok := callResult(v)
+				if !ok || calleeName(cc) != "proxy/lib.newTokens" {
+					return false
+				}
+				_, f, okf := fieldLoad(cc.Call.Args[0])
+				return okf && f.Name() == "Capacity"
+			})
+			path := psSearch(start.Blocks[0], nil, func(b *ssa.BasicBlock) bool { return b == store.Block() }, func(b *ssa.BasicBlock) bool { return b == firstGet.Block() })
+			c.check(fromCap && path == nil, rule, "Start creates the token pool from its Capacity before any slot is taken", p.instrPos(store), "on every path", "the pool is not (always) re-created from this Start's Capacity: a proxy restarted with another capacity keeps honouring the old one", p.pathString(path)...)
+		}
+	}
+	if cl := p.Fn("common/websocketconn", "(*Conn).Close"); cl != nil {
+		n := 0
+		for _, ci := range callsIn(cl) {
+			if !strings.HasSuffix(calleeName(ci), "websocket.Conn).WriteControl") {
+				continue
+			}
+			n++
+			args := ci.Common().Args
+			dl := args[len(args)-1]
+			fromClock := flows(dl, func(v ssa.Value) bool {
+				cc, _, ok := callResult(v)
+				return ok && calleeName(cc) == "time.Now"
+			})
+			c.check(fromClock, rule, "websocketconn.Close writes its Close frame under a deadline", p.instrPos(ci), "time.Now().Add(...)", "the Close control frame is written with no deadline (a zero time): WriteControl waits for the connection's write lock, which a write loop blocked in a socket write never gives up, and Close - with it the session's teardown - hangs")
+		}
+		if n == 0 {
+			c.okTrivial(rule, "websocketconn.Close writes a Close frame", p.Pos(cl.Pos()), "no WriteControl call: obligation not evaluated")
+		}
 	}
 }
